@@ -135,6 +135,8 @@ type pathState struct {
 	hashConc   []hashConc
 	sleeps     int
 	crashed    bool
+	vector     *Vector
+	wantedVec  bool
 	schedFixed bool
 	zframes    [][]value
 	onCrash    value
